@@ -312,17 +312,17 @@ bool tN2kGroupFunctionHandlerForPGN126996::HandleRequest(const tN2kMsg &N2kMsg,
             break;
           case N2kPGN126996_ManufacturersSoftwareVersionCode_field:
             N2kMsg.GetStr(strSize,Query,Max_N2kSwCode_len,0xff,Index);
-            pNMEA2000->GetModelID(CurVal,strSize,iDev);
+            pNMEA2000->GetSwCode(CurVal,strSize,iDev);
             MatchRequestField(Query,CurVal,MatchFilter,FieldErrorCode);
             break;
           case N2kPGN126996_ManufacturersModelVersion_field:
             N2kMsg.GetStr(strSize,Query,Max_N2kModelVersion_len,0xff,Index);
-            pNMEA2000->GetModelID(CurVal,strSize,iDev);
+            pNMEA2000->GetModelVersion(CurVal,strSize,iDev);
             MatchRequestField(Query,CurVal,MatchFilter,FieldErrorCode);
             break;
           case N2kPGN126996_ManufacturersModelSerialCode_field:
             N2kMsg.GetStr(strSize,Query,Max_N2kModelSerialCode_len,0xff,Index);
-            pNMEA2000->GetModelID(CurVal,strSize,iDev);
+            pNMEA2000->GetModelSerialCode(CurVal,strSize,iDev);
             MatchRequestField(Query,CurVal,MatchFilter,FieldErrorCode);
             break;
           case N2kPGN126996_NMEA2000CertificationLevel_field:
